@@ -151,11 +151,11 @@ impl Engine for C02 {
             .map(|(i, n)| Phase::new(n, json!({"frag": i, "thorough": false})))
             .collect();
         v.push(Phase::new(
-            "kind-agnostic expressions of <= 2 constructors x 27 contexts, judged where the reference gives a meaning",
+            "kind-agnostic expressions of <= 2 constructors x 28 contexts, judged where the reference gives a meaning",
             json!({"agnostic": 2}),
         ));
         v.push(Phase::new(
-            "kind-agnostic expressions of 3 constructors x 27 contexts, judged where the reference gives a meaning",
+            "kind-agnostic expressions of 3 constructors x 28 contexts, judged where the reference gives a meaning",
             json!({"agnostic": 3}),
         ));
         v.push(Phase::new(
@@ -168,7 +168,7 @@ impl Engine for C02 {
         ));
         if tier == Tier::Thorough {
             v.push(Phase::new(
-                "kind-agnostic expressions of 4 constructors x 27 contexts, judged where the reference gives a meaning",
+                "kind-agnostic expressions of 4 constructors x 28 contexts, judged where the reference gives a meaning",
                 json!({"agnostic": 4}),
             ));
             v.push(Phase::new(
@@ -266,7 +266,7 @@ impl Engine for C02 {
         }
     }
     fn rule(&self) -> String {
-        "kind-directed fragments F1 schema algebra, F2 contents x ranges (status x media x headers x body)^<=n in three spellings, F3 transfers and relations, F4 URI templates and concat, F5 declarations/functions/scoping under all statement permutations, F6 recursion (all assignments of 27/40 body forms to 2/3 declarations, rec in functions, imported recursion), F7 @references, F8 modules, F9 annotations (every key at every position the language defines), F10 collisions, F11 every closed recursion term; each enumerated exhaustively with the others at their simplest value; plus the generated spaces of C01 (kind-agnostic expressions of <= 3, thorough 4, constructors x 27 contexts; the annotation matrix; the two-module products), judged wherever the reference gives the program a meaning. Oracle: abstract document of the emitted YAML == document of the independent reference evaluator (exact, modulo names of implicit components). Non-trivial = accepted with a reference meaning; distinct = distinct YAML texts".into()
+        "kind-directed fragments F1 schema algebra, F2 contents x ranges (status x media x headers x body)^<=n in three spellings, F3 transfers and relations, F4 URI templates and concat, F5 declarations/functions/scoping under all statement permutations, F6 recursion (all assignments of 27/40 body forms to 2/3 declarations, rec in functions, imported recursion), F7 @references, F8 modules, F9 annotations (every key at every position the language defines), F10 collisions, F11 every closed recursion term; each enumerated exhaustively with the others at their simplest value; plus the generated spaces of C01 (kind-agnostic expressions of <= 3, thorough 4, constructors x 28 contexts; the annotation matrix; the two-module products), judged wherever the reference gives the program a meaning. Oracle: abstract document of the emitted YAML == document of the independent reference evaluator (exact, modulo names of implicit components). Non-trivial = accepted with a reference meaning; distinct = distinct YAML texts".into()
     }
     fn assumptions(&self) -> Vec<String> {
         vec![
